@@ -23,10 +23,12 @@ BOUNDS = {"families": "native/gen_dependent.py: 1-5 handlers per rank, 1-2 dispa
 
 
 def tasks(tier):
-    t = _gen.dep_tasks(tier)
+    t = _gen.dep_tasks(tier) + _gen.valuetype_tasks()
     t += [_tm.T(f"subclasscheck/dependent_applicable_iff_bound[{k}]", mro_c.t_sc_dependent(k)) for k in mro_c.DEP]
     t += [_tm.T("DependentType.__instancecheck__", mro_c.t_dep_instancecheck)]
     t += [_tm.T(f"typeorder/dependent_below_bound[{k}]/plain_bound", mro_c.t_dependent_below_bound(k, ["Class", "Alias", "Strict", "HasMethod", "ClassCheck"])) for k in mro_c.DEP]
+    # "preferred over methods declared on the bound or its SUBCLASSES" (and on its supertypes)
+    t += [_tm.T(f"typeorder/dependent_below_relatives[{k}]", mro_c.t_dependent_below_relatives(k)) for k in mro_c.DEP if k != "Product"]
     # two value-dependent methods that are not ordered (crossing wildcards, unrelated conditions) must stay unordered: the
     # order of value-dependent kinds (shared with C12), and the native mirror / order-free clauses over wildcard shapes
     for a, b in (("Equals", "Equals"), ("Equals", "FuncDep"), ("FuncDep", "FuncDep")):
